@@ -226,3 +226,60 @@ func BackgroundExpiry(e0 *Env, store lungo.Store) {
 	e.recordExpire(pre, evsBefore, now, engine.Catalog() != published, "background")
 	e0.Findings = append(e0.Findings, e.Findings...)
 }
+
+// RandomTTL: seeded variations - 1-3 collections with 0-2 TTL indexes on randomly chosen fields and intervals
+// (next to ordinary, unique and partial indexes), documents drawn from the value pool in random order and number,
+// then committed, abandoned and repeated passes.
+func RandomTTL(mk func() *Env, each func(e *Env), rounds int) {
+	for r := 0; r < rounds; r++ {
+		e := mk()
+		e.Hist = 500 + r
+		g := e.G
+		now := time.Now()
+		vals := ttlValues(now)
+		fields := []string{"c", "e", "when"}
+		for _, ns := range []string{"d.r1", "d.r2", "e.r3"}[:1+g.N(3)] {
+			used := map[string]bool{}
+			for k := 0; k < g.N(3); k++ {
+				f := fields[g.N(len(fields))]
+				if used[f] {
+					continue
+				}
+				used[f] = true
+				spec := IndexSpec{Key: d(f, g.Pick(int32(1), int32(-1))), Expire: []int{0, 10, 3600, 86400}[g.N(4)]}
+				if g.P(25) {
+					spec.Partial, spec.Name = d("a", d("$gte", int32(g.N(5)))), "p_"+f
+				}
+				e.Do(e.CreateIndex(ns, spec))
+			}
+			if g.P(50) {
+				e.Do(e.CreateIndex(ns, IndexSpec{Key: d("a", int32(1), "_id", int32(1)), Unique: g.P(50), Partial: d("a", d("$gte", int32(3))), Name: "pa", Expire: -1}))
+			}
+			if g.P(40) {
+				e.Do(e.CreateIndex(ns, IndexSpec{Key: d("tags", int32(1)), Expire: -1}))
+			}
+			var docs []bson.D
+			for i := 0; i < 4+g.N(14); i++ {
+				doc := d("_id", int32(i), "a", int32(g.N(7)))
+				for _, f := range fields {
+					if v := vals[g.N(len(vals))]; v != "missing" && g.P(70) {
+						doc = append(doc, bson.E{Key: f, Value: v})
+					}
+				}
+				if g.P(40) {
+					doc = append(doc, bson.E{Key: "tags", Value: bson.A{int32(g.N(3)), int32(g.N(3))}})
+				}
+				docs = append(docs, doc)
+			}
+			e.Do(e.InsertMany(ns, docs, false))
+		}
+		if e.Flaky != nil {
+			e.AbandonedPass(g.P(50))
+		}
+		e.ExpirePass()
+		e.ExpirePass()
+		e.Do(e.Count("d.r1", d(), 0, 0))
+		each(e)
+		e.Close()
+	}
+}
